@@ -15,7 +15,16 @@ from snaxc.util.dispatching_rules import dispatch_to_compute, dispatch_to_dm
 
 def is_view_op(op: Operation) -> bool:
     """Operations that produce another view on the memory of their first operand."""
-    return isinstance(op, memref.SubviewOp | memref.CastOp | memref.MemorySpaceCastOp | snax.LayoutCast)
+    return isinstance(
+        op,
+        memref.SubviewOp
+        | memref.CastOp
+        | memref.MemorySpaceCastOp
+        | memref.ReinterpretCastOp
+        | memref.ExpandShapeOp
+        | memref.CollapseShapeOp
+        | snax.LayoutCast,
+    )
 
 
 def may_access_buffers(op: Operation, ctx: AccContext) -> bool:
